@@ -346,15 +346,23 @@ class SimSocket:
                 raise OSError(9, 'Bad file descriptor')
             raise OSError(107, 'Transport endpoint is not connected')
         pipe = self._rx
+        peek = bool(flags & _real_socket.MSG_PEEK)
         if not pipe.buf and not pipe.eof and not pipe.reset:
-            s = _sim()
-            from .prims import _Timer
-            tm = _Timer(s, self._timeout)
-            s.yield_('recv.wait', self.name,
-                     lambda: bool(pipe.buf) or pipe.eof or pipe.reset or tm.fired)
-            if not pipe.buf and not pipe.eof and not pipe.reset:
-                raise _real_socket.timeout('timed out')
+            if flags & getattr(_real_socket, 'MSG_DONTWAIT', 0) or self._timeout == 0.0:
+                _sim().yield_('recv.poll', self.name)
+                if not pipe.buf and not pipe.eof and not pipe.reset:
+                    raise BlockingIOError(11, 'Resource temporarily unavailable')
+            else:
+                s = _sim()
+                from .prims import _Timer
+                tm = _Timer(s, self._timeout)
+                s.yield_('recv.wait', self.name,
+                         lambda: bool(pipe.buf) or pipe.eof or pipe.reset or tm.fired)
+                if not pipe.buf and not pipe.eof and not pipe.reset:
+                    raise _real_socket.timeout('timed out')
         if pipe.buf:
+            if peek:
+                return bytes(pipe.buf[:n])
             pipe.eof_reads = 0
             if n >= len(pipe.buf):
                 out = bytes(pipe.buf)
@@ -366,6 +374,8 @@ class SimSocket:
         if pipe.reset:
             raise ConnectionResetError(104, 'Connection reset by peer')
         # EOF
+        if peek:
+            return b''
         pipe.eof_reads += 1
         s = _sim()
         if pipe.eof_reads == 1:
